@@ -172,7 +172,7 @@ int lltd_port_get_bssid(void *c, uint8_t o[6]) { vctx *v = c; if (v->bssidfail) 
 size_t lltd_port_get_ssid(void *c, void *d, size_t n) { vctx *v = c; return put_clamped(d, n, v->ssid, v->ssidlen); }
 int lltd_port_get_wifi_max_rate_0_5mbps(void *c, uint16_t *o) { vctx *v = c; if (v->ratefail) return -1; *o = v->rate; return 0; }
 int lltd_port_get_wifi_rssi_dbm(void *c, int8_t *o) { vctx *v = c; if (v->rssifail) return -1; *o = (int8_t)v->rssi; return 0; }
-int lltd_port_get_wifi_phy_medium(void *c, uint32_t *o) { (void)c; *o = 0; return -1; }
+int lltd_port_get_wifi_phy_medium(void *c, uint32_t *o) { vctx *v = c; if (!v->phyok) { *o = 0; return -1; } *o = v->phy; return 0; }
 void lltd_port_log_debug(const char *f, ...) { (void)f; }
 void lltd_port_log_warning(const char *f, ...) { (void)f; }
 
@@ -297,6 +297,7 @@ static void apply_cfg(char **tok, int ntok) {
             else if (!strcmp(k, "ratefail")) v->ratefail = atoi(val);
             else if (!strcmp(k, "rssi")) v->rssi = atoi(val);
             else if (!strcmp(k, "rssifail")) v->rssifail = atoi(val);
+            else if (!strcmp(k, "phy")) { v->phyok = strcmp(val, "none") != 0; v->phy = (uint32_t)strtoul(val, NULL, 10); }
         }
     }
 }
